@@ -306,13 +306,15 @@ func (info *decodeInfo) decodeCharString(code []byte) (*Glyph, error) {
 					dx := stack[0] + stack[2] + stack[4] + stack[6] + stack[8]
 					dy := stack[1] + stack[3] + stack[5] + stack[7] + stack[9]
 					if math.Abs(dx) > math.Abs(dy) {
+						// the curve ends at the y-coordinate of the starting point
 						rCurveTo(stack[6], stack[7],
 							stack[8], stack[9],
-							extra, 0)
+							extra, -dy)
 					} else {
+						// the curve ends at the x-coordinate of the starting point
 						rCurveTo(stack[6], stack[7],
 							stack[8], stack[9],
-							0, extra)
+							-dx, extra)
 					}
 					// fd = 0.5
 				}
